@@ -29,6 +29,7 @@
 #include "soplex/statistics.h"
 #include "soplex/slufactor_rational.h"
 #include "soplex/ratrecon.h"
+#include "soplex/verifhooks.h"
 
 namespace soplex
 {
@@ -2161,6 +2162,7 @@ void SoPlexBase<R>::_performOptIRStable(
    {
       // decrement minIRRoundsRemaining counter
       minIRRoundsRemaining--;
+      SOPLEX_VERIF_POINT(SOPLEX_VERIF_SITE_REFINE_ROUND);
 
       SPxOut::debug(this, "Computing primal violations.\n");
 
@@ -6617,6 +6619,9 @@ bool SoPlexBase<R>::_reconstructSolutionRational(SolRational& sol,
 
    success = false;
    isSolBasic = true;
+
+   if(SOPLEX_VERIF_BUGGIFY(SOPLEX_VERIF_SITE_RATREC_FAIL))
+      return success;
 
    if(!sol.isPrimalFeasible() || !sol.isDualFeasible())
       return success;
